@@ -34,6 +34,13 @@ Inductive case :=
 (** Several meters with the same name / version that differ only in their attributes: per meter its attributes
     + name + version (set order), and the label sets of all otel_scope_info series of the scrape. *)
 | CScopeInfos (utf8 : bool) (inputs outs : list (list Model.attr))
+(** One instrument name on several meters with these descriptions: number of families, Gather error, the
+    family's help text. *)
+| CHelp (descs : list bytes) (gather_err : bool) (nfam : nat) (help : bytes)
+(** Reserved scope labels: the meter's real name / version, the keys of its attributes, the labels of its
+    otel_scope_info series, the scope labels of its data series. *)
+| CScopeName (utf8 : bool) (real_name real_ver : bytes) (keys : list bytes)
+             (info_labels : list Model.attr) (series_scopes : list (option (bytes * bytes)))
 | CAttrs (utf8 : bool) (input out : list Model.attr).   (* target_info labels of a resource *)
 
 Definition flag (b : bool) (code : N) : list N := if b then [] else [code].
@@ -217,6 +224,25 @@ Definition check_case (c : case) : list N :=
       flag (Nat.eqb (length inputs) (length outs) &&
             forallb (fun i => existsb (labels_ok utf8 i) outs) inputs &&
             forallb (fun o => existsb (fun i => labels_ok utf8 i o) inputs) outs) V_SPECFAIL
+  | CHelp descs gerr nfam help =>
+      (* one family with one help text, one of the descriptions given; no Gather error *)
+      let ok := negb gerr && (Nat.eqb nfam 0 || (Nat.eqb nfam 1 && existsb (bytes_eqb help) descs)) in
+      (* known finding F-C18-4: an empty description seen first and a non-empty one later make Gather fail *)
+      let known := gerr && existsb (fun d => match d with [] => true | _ => false end) descs &&
+                   existsb (fun d => match d with [] => false | _ => true end) descs in
+      if ok then [] else if known then [V_KNOWN 4] else [V_SPECFAIL]
+  | CScopeName utf8 real_name real_ver keys info_labels series_scopes =>
+      let reserved k := bytes_eqb k (str "otel_scope_name") || bytes_eqb k (str "otel_scope_version") in
+      let label k := match find (fun kv => bytes_eqb (fst kv) k) info_labels with Some kv => Some (snd kv) | None => None end in
+      let info_ok := option_eqb bytes_eqb (label (str "otel_scope_name")) (Some real_name) &&
+                     option_eqb bytes_eqb (label (str "otel_scope_version")) (Some real_ver) in
+      let series_ok := forallb (fun o => match o with
+                                         | Some (n, v) => bytes_eqb n real_name && bytes_eqb v real_ver
+                                         | None => false end) series_scopes in
+      (* known finding F-C18-5: under legacy validation an attribute key that only SANITISES to a reserved scope
+         label is merged into it *)
+      let known := negb utf8 && existsb (fun k => negb (reserved k) && reserved (sanitise k)) keys && series_ok in
+      if info_ok && series_ok then [] else if known then [V_KNOWN 5] else [V_SPECFAIL]
   | CAttrs utf8 input out =>
       flag (attrs_eqb (get_attrs utf8 input) out) V_MISMATCH ++
       flag (labels_ok utf8 input out) V_SPECFAIL
